@@ -250,7 +250,7 @@ def make_data_dict(filename):
     """
     if os.path.splitext(filename)[1] == '.gz':
         import gzip
-        f = gzip.open(filename)
+        f = gzip.open(filename, 'rt')
     elif os.path.splitext(filename)[1] == '.zip':
         import zipfile
         archive = zipfile.ZipFile(filename)
@@ -258,7 +258,8 @@ def make_data_dict(filename):
         if len(namelist) != 1:
             raise ValueError('Must be only a single data file in zip '
                              'archive: %s' % filename)
-        f = archive.open(namelist[0])
+        import io
+        f = io.TextIOWrapper(archive.open(namelist[0]))
     else:
         f = open(filename)
 
@@ -500,7 +501,7 @@ def make_data_dict_vcf_cyvcf2(vcf_filename, popinfo_filename, subsample=None, fi
 
     if os.path.splitext(popinfo_filename)[1] == '.gz':
         import gzip
-        popinfo_file = gzip.open(popinfo_filename)
+        popinfo_file = gzip.open(popinfo_filename, 'rt')
     elif os.path.splitext(popinfo_filename)[1] == '.zip':
         import zipfile
         archive = zipfile.ZipFile(popinfo_filename)
@@ -508,7 +509,8 @@ def make_data_dict_vcf_cyvcf2(vcf_filename, popinfo_filename, subsample=None, fi
         if len(namelist) != 1:
             raise ValueError("Must be only a single popinfo file in zip "
                              "archive: {}".format(popinfo_filename))
-        popinfo_file = archive.open(namelist[0])
+        import io
+        popinfo_file = io.TextIOWrapper(archive.open(namelist[0]))
     else:
         popinfo_file = open(popinfo_filename)
 
@@ -745,7 +747,7 @@ def make_data_dict_vcf(vcf_filename, popinfo_filename, subsample=None, filter=Tr
 
     if os.path.splitext(popinfo_filename)[1] == '.gz':
         import gzip
-        popinfo_file = gzip.open(popinfo_filename)
+        popinfo_file = gzip.open(popinfo_filename, 'rt')
     elif os.path.splitext(popinfo_filename)[1] == '.zip':
         import zipfile
         archive = zipfile.ZipFile(popinfo_filename)
@@ -753,7 +755,8 @@ def make_data_dict_vcf(vcf_filename, popinfo_filename, subsample=None, filter=Tr
         if len(namelist) != 1:
             raise ValueError("Must be only a single popinfo file in zip "
                                 "archive: {}".format(popinfo_filename))
-        popinfo_file = archive.open(namelist[0])
+        import io
+        popinfo_file = io.TextIOWrapper(archive.open(namelist[0]))
     else:
         popinfo_file = open(popinfo_filename)
     # pop_dict has key, value pairs of "SAMPLE_NAME" : "POP_NAME"
